@@ -124,10 +124,74 @@ func (c *Ctx) tableRows(table ssa.Value) ([]map[int]ssa.Value, bool) {
 
 func zeroValueOf(t types.Type) ssa.Value { return zeroConst(t) }
 
+// itemCtor finds the function that builds one report item: sizes.newItem,
+// or (when that was inlined away) the function or closure of package sizes
+// that allocates a sizes.item from its parameters and returns it.
+func (c *Ctx) itemCtor() *ssa.Function {
+	if v, ok := c.memo["itemctor"]; ok {
+		f, _ := v.(*ssa.Function)
+		return f
+	}
+	var found *ssa.Function
+	defer func() { c.memo["itemctor"] = found }()
+	if f := c.fn("/sizes", "", "newItem"); f != nil {
+		found = f
+		return f
+	}
+	it := c.namedType("/sizes", "item")
+	if it == nil {
+		return nil
+	}
+	for _, f := range c.ModFns {
+		if pkgOf(f) != modPath+"/sizes" || f.Signature.Results().Len() != 1 || f.Signature.Params().Len() < 6 {
+			continue
+		}
+		makes := false
+		allInstrs(f, func(in ssa.Instruction) {
+			if al, ok := in.(*ssa.Alloc); ok && types.Identical(al.Type().Underlying().(*types.Pointer).Elem(), it) {
+				makes = true
+			}
+		})
+		if makes && found == nil {
+			found = f
+		}
+	}
+	return found
+}
+
+// callsToFn lists the calls in f (and its closures) of fn, whether fn is a
+// named function or a closure held in a local variable.
+func (c *Ctx) callsToFn(f, fn *ssa.Function) []*ssa.Call {
+	var out []*ssa.Call
+	if fn == nil || f == nil {
+		return nil
+	}
+	fns := append([]*ssa.Function{f}, f.AnonFuncs...)
+	for _, g := range fns {
+		if g == fn {
+			continue
+		}
+		allInstrs(g, func(in ssa.Instruction) {
+			call, ok := in.(*ssa.Call)
+			if !ok {
+				return
+			}
+			if call.Call.StaticCallee() == fn {
+				out = append(out, call)
+				return
+			}
+			if mc, ok := c.resolve(call.Call.Value).(*ssa.MakeClosure); ok && mc.Fn == ssa.Value(fn) {
+				out = append(out, call)
+			}
+		})
+	}
+	return out
+}
+
 // itemRows lists the items built by f with newItem.
 func (c *Ctx) itemRows(f, newItem *ssa.Function) []itemRow {
 	var out []itemRow
-	for _, call := range callsTo(f, newItem) {
+	for _, call := range c.callsToFn(f, newItem) {
 		args := call.Call.Args
 		var table ssa.Value
 		fields := make([]int, len(args))
